@@ -1,5 +1,6 @@
 import WellenModel.Proofs.Hier
 import WellenModel.Proofs.HierRefine
+import WellenModel.Proofs.HierObs
 /-!
 # C08 — the hierarchy is a well-formed, fully navigable tree
 
@@ -11,7 +12,8 @@ theorems `C08_wellformed` … `C08_reopen_continues` are about the specification
 pointer-level model to it: for every balanced history the builder does not panic and its arrays, links, scope stack and
 cached last children represent exactly the specification's node list; `C08_walk_refines` reads the navigation
 observers off that relation (the item iterator of the top level and of every scope yields exactly the specification's
-children in declaration order, names / signals / parents agree). The real code is tied to the pointer-level model by
+children in declaration order, names / signals / parents agree); `C08_full_names` and `C08_lookups` do the same for
+`full_name` and `lookup_scope` / `lookup_var` / `lookup_var_with_index`. The real code is tied to the pointer-level model by
 the exhaustive small-scope + random differential run (every navigation observer is compared).
 -/
 namespace Wellen.Hier
@@ -94,6 +96,24 @@ theorem C08_walk_refines (ops : List Op) (s : SpecSt) (h : specRun ops = some s)
   intro j k hjk
   have := items_eq_kids b s ids hr (some j)
   rwa [firstOf_scope b ids j k hjk] at this
+
+/-- **full names** of the represented hierarchy: the builder's `full_name` of every scope and variable (climbing the parent
+links) is the specification's dotted path of ancestor names — for every state `Rel` relates, hence (with
+`C08_builder_refines_spec`) after every balanced history -/
+theorem C08_full_names (b : Builder) (s : SpecSt) (ids : List ItemId) (hr : Rel b s ids) (j k : Nat) :
+    (ids[j]? = some (ItemId.scope k) → scopeFullName b k = specFullName s.nodes s.nodes.length j) ∧
+    (ids[j]? = some (ItemId.var k) → varFullName b k = specFullName s.nodes s.nodes.length j) := by
+  refine ⟨fun h => ?_, fun h => ?_⟩
+  · exact scopeFullName_eq b s ids hr k j _ h (Nat.le_of_lt (node_of_id b s ids hr j _ h).1)
+  · exact varFullName_eq b s ids hr k j _ h (Nat.le_of_lt (node_of_id b s ids hr j _ h).1)
+
+/-- **lookups** on the represented hierarchy return the item the specification designates: the first declared scope of
+each name along the path, then the first declared variable with the name (and index) -/
+theorem C08_lookups (b : Builder) (s : SpecSt) (ids : List ItemId) (hr : Rel b s ids) (path : List String) (name : String) :
+    lookupScope b path = (specLookupScope s.nodes none path).bind (fun j => scopeIdx (idAt ids j)) ∧
+    lookupVar b path name = (specLookupVar s.nodes path name).bind (fun j => varIdx (idAt ids j)) ∧
+    lookupVarIdx b path name = (specLookupVarIdx s.nodes path name).bind (fun j => varIdx (idAt ids j)) :=
+  ⟨lookupScope_eq b s ids hr path, lookupVar_eq b s ids hr path name, lookupVarIdx_eq b s ids hr path name⟩
 
 /-- non-vacuity of the refinement: the history below (re-opened scope, dissolved empty scope) runs on the builder -/
 example : ∃ b, run [.scope "a" false, .var "x" 0, .pop, .scope "a" false, .scope "" true, .var "y" 1, .pop, .pop] = some b ∧
